@@ -68,6 +68,8 @@ type OpRec struct {
 	CancelStep       uint64
 	CancelT          time.Duration
 	CancelSite       string
+	CancelSlot       int
+	QuietChecked     bool
 }
 
 // World ties the client under test to the simulated environment.
@@ -503,7 +505,12 @@ func (w *World) runScan(rec *OpRec) {
 			}
 		}
 		if op.PauseMS > 0 && err == nil {
-			time.Sleep(ms(op.PauseMS))
+			// the caller's own pause between fetches ends with its context
+			simrt.Yield("task:scanpause")
+			select {
+			case <-time.After(ms(op.PauseMS)):
+			case <-rec.ctx.Done():
+			}
 			simrt.Woke("task:scanpause")
 		}
 		simrt.Yield("task:scan-next")
@@ -529,6 +536,19 @@ func (w *World) cancelOp(task, idx, slot int) {
 	if task >= len(w.Recs) || idx >= len(w.Recs[task]) {
 		return
 	}
+	w.Env.Probe("cancel-fired")
+	if idx < 0 {
+		// the operation the task is executing right now
+		idx = -1
+		for i, r := range w.Recs[task] {
+			if r.Started && !r.Done {
+				idx = i
+			}
+		}
+		if idx < 0 {
+			return
+		}
+	}
 	rec := w.Recs[task][idx]
 	if !rec.Started {
 		// not started yet: make it start cancelled
@@ -544,6 +564,7 @@ func (w *World) cancelOp(task, idx, slot int) {
 	}
 	if rec.CancelStep == 0 {
 		rec.CancelStep, rec.CancelT = w.Env.Step, w.Env.Now()
+		rec.CancelSlot = slot
 		if t := w.TaskG; task < len(t) && t[task] != nil {
 			rec.CancelSite = t[task].Site
 		}
